@@ -7,7 +7,7 @@ PROPS_FILE = "theories/Props/C02.v"
 EXTRACT = ("theories/Extract/XC02.v", "c02",
            ["entry_hull_ijv", "entry_hull_labels", "entry_hull_label", "entry_hull_ok", "entry_batch_ok"])
 PYX = {"_convex_hull.pyx": ["CONVEX", "convex_hull_ijv"]}
-RULE = ("corpus; every non-empty point set of a 3x3 grid (thorough: 3x4 and 4x3) as one label through convex_hull_ijv, "
+RULE = ("corpus; every non-empty point set of a 3x3 and 3x4 grid (thorough: also 4x3, 2x5, 5x2) as one label through convex_hull_ijv, "
         "alone (slack 0, where the in-place guard can fire), followed by another label (whose first row an overrun would corrupt) and behind a filler label (slack > 0); random label images "
         "1x1..12x12 (thorough ..40x40: noise at several densities, blobs, lines, diagonals, U/C shapes, columns with "
         "gaps, objects touching all borders) through cpmorphology.convex_hull with index lists {None, all, permuted, "
@@ -143,7 +143,7 @@ def generate(ctx):
     rng = ctx.rng
     cases = []
     # exhaustive small grids, one label: alone (slack 0) and behind a filler label whose own pixels leave slack
-    grids = [(3, 3)] if ctx.quick() else [(3, 3), (3, 4), (4, 3), (2, 5)]
+    grids = [(3, 3), (3, 4)] if ctx.quick() else [(3, 3), (3, 4), (4, 3), (2, 5), (5, 2)]
     for H, W in grids:
         for pts in _grid_sets(H, W):
             ijv = [[i, j, 2] for i, j in pts]
@@ -157,14 +157,14 @@ def generate(ctx):
                 cases.append({"fn": "ijv", "ijv": fill + ijv, "idx": [2, 1] if len(pts) % 2 else [1, 2]})
                 ctx.count("grid-company")
     # random subsets of somewhat larger grids (slack 0)
-    for _ in range(ctx.n(300, 6000)):
+    for _ in range(ctx.n(1000, 8000)):
         H, W = [(3, 4), (4, 4), (5, 3), (3, 6), (6, 6)][rng.randint(5)]
         m = rng.rand(H, W) < rng.choice([0.3, 0.5, 0.8])
         pts = [[int(i), int(j), 1] for j in range(W) for i in range(H) if m[i, j]]
         if pts:
             cases.append({"fn": "ijv", "ijv": pts, "idx": [1]}); ctx.count("grid-random")
     # label images through cpmorphology.convex_hull
-    for _ in range(ctx.n(500, 8000)):
+    for _ in range(ctx.n(1500, 10000)):
         lab = _label_image(rng, ctx.n(12, 40))
         present = [int(x) for x in np.unique(lab) if x > 0]
         cases.append({"fn": "labels", "img": lab.tolist(), "idx": _index_list(rng, present, False)})
@@ -179,7 +179,7 @@ def generate(ctx):
                 cases.append({"fn": "ijv", "ijv": [[int(a), int(b) * 2 + 1, 4] for a, b in ij], "idx": [4, 1]})
                 ctx.count("shape-ijv-sparse-columns")
     # ijv lists
-    for _ in range(ctx.n(500, 8000)):
+    for _ in range(ctx.n(1500, 10000)):
         cases.append(_random_ijv(rng, not ctx.quick())); ctx.count("ijv")
     # malformed: empty ijv is rejected by both sides
     cases.append({"fn": "ijv", "ijv": [], "idx": [1]}); ctx.count("malformed-empty-ijv")
